@@ -33,7 +33,17 @@ def cell_val(j):
     return float(Fraction(j))
 
 
-def gen_numeric_feature(rng, n, kind=None):
+def gen_numeric_feature(rng, n, kind=None, need_finite=False):
+    """need_finite: do not produce columns whose non-null values are all infinite (a recorded C13 finding)"""
+    for _ in range(20):
+        k, vals = _gen_numeric_feature(rng, n, kind)
+        nn = [v for v in vals if v is not None and not (isinstance(v, float) and math.isnan(v))]
+        if not need_finite or not nn or any(math.isfinite(v) for v in nn):
+            return k, vals
+    return "const", [1.0] * n
+
+
+def _gen_numeric_feature(rng, n, kind=None):
     kind = kind or rng.choice(["float", "float", "float_null", "float_nan", "float_inf", "int", "int_null", "const", "allnull", "few"])
     if kind == "allnull":
         return kind, [None] * n
